@@ -20,6 +20,7 @@ import (
 	"verif/harness/internal/gen"
 	"verif/harness/internal/out"
 	"verif/harness/internal/proj"
+	"verif/harness/internal/ucih"
 )
 
 func init() {
@@ -251,6 +252,70 @@ func engines(args []string) {
 			}
 		}
 		probe(mk(fen.Initial), 2)
+	}
+
+	// books built from lines (engine.NewBook): lines that end in an en passant capture, probed at every
+	// position that any reordering of a line prefix reaches -- same placement, side and castling rights,
+	// but the en passant right may be gone; and at the played positions with other clocks
+	{
+		lines := ucih.EpLines()
+		bk, err := engine.NewBook(lines)
+		if err != nil {
+			out.Fatalf("line book: %v", err)
+		}
+		play := func(ms []string) *board.Board {
+			b := mk(fen.Initial)
+			for _, t := range ms {
+				ok := false
+				for _, m := range b.Position().PseudoLegalMoves(b.Turn()) {
+					if moveText(m) == t && b.PushMove(m) {
+						ok = true
+						break
+					}
+				}
+				if !ok {
+					return nil
+				}
+			}
+			return b
+		}
+		seen := map[string]bool{}
+		probe := func(b *board.Board) {
+			for _, f := range []string{
+				fen.Encode(b.Position(), b.Turn(), b.NoProgress(), b.FullMoves()),
+				fen.Encode(b.Position(), b.Turn(), 7, 31),
+			} {
+				if seen[f] {
+					continue
+				}
+				seen[f] = true
+				moves, err := bk.Find(ctx, f)
+				if err == nil && len(moves) > 0 {
+					var ms [][]int
+					for _, m := range moves {
+						ms = append(ms, proj.Move(m))
+					}
+					w.Emit(out.M{"op": "book", "book": "lines", "key": f, "pos": proj.Position(b.Position(), b.Turn()), "moves": ms})
+				}
+			}
+		}
+		for _, line := range lines {
+			for k := 0; k < len(line); k++ {
+				prefix := append([]string{}, line[:k]...)
+				if b := play(prefix); b != nil {
+					probe(b)
+				}
+				for i := 0; i < k; i++ {
+					for j := i + 2; j < k; j += 2 {
+						alt := append([]string{}, prefix...)
+						alt[i], alt[j] = alt[j], alt[i]
+						if b := play(alt); b != nil {
+							probe(b)
+						}
+					}
+				}
+			}
+		}
 	}
 
 	// tight positions: the side to move has one or two legal moves and its king none -- where a
